@@ -86,9 +86,9 @@ func genConfig(rng *simcore.RNG, env *simcore.Env) simcore.Op {
 	c["part"] = []int{64, 100, 256, 1024, 65536}[rng.Intn(5)]
 	c["hashlen"] = []int{8, 20, 32}[rng.Intn(3)]
 	c["nops"] = rng.Range(8, 40)
-	c["churn"] = []int{0, 10, 30, 60}[rng.Intn(4)]  // percent of blocks with validator txs
-	c["pchurn"] = []int{0, 5, 20}[rng.Intn(3)]      // percent of blocks with parameter txs
-	c["drops"] = rng.Bool(0.5)                      // large power swings
+	c["churn"] = []int{0, 10, 30, 60}[rng.Intn(4)] // percent of blocks with validator txs
+	c["pchurn"] = []int{0, 5, 20}[rng.Intn(3)]     // percent of blocks with parameter txs
+	c["drops"] = rng.Bool(0.5)                     // large power swings
 	c["crash"] = rng.Bool(0.8)
 	c["sweep"] = rng.Bool(0.25)
 	c["prune"] = []int{0, 5, 12, 25}[rng.Intn(4)]
@@ -924,9 +924,13 @@ func (s *sim) doPrune(n *node, retain int64, checks bool) {
 		return
 	}
 	ids := map[int64]types.BlockID{}
+	var there int64 // heights of [base, retain) present before (all of them, unless a known finding left base at a deleted height)
 	for h := base; h < retain; h++ {
 		if b := s.blocks[h]; b != nil {
 			ids[h] = b.id
+		}
+		if h > base || n.bs.LoadBlockMeta(h) != nil {
+			there++
 		}
 	}
 	pruned, err := n.bs.PruneBlocks(retain)
@@ -946,8 +950,8 @@ func (s *sim) doPrune(n *node, retain int64, checks bool) {
 	if !checks {
 		return
 	}
-	if int64(pruned) != retain-base {
-		e.Fail("C18", "prune-count", "PruneBlocks(%d) from base %d reports %d pruned", retain, base, pruned)
+	if int64(pruned) != there {
+		e.Fail("C18", "prune-count", "PruneBlocks(%d) from base %d (%d heights present) reports %d pruned", retain, base, there, pruned)
 	}
 	if n.bs.Height() != height {
 		e.Fail("C18", "prune-base", "pruning changed the height from %d to %d", height, n.bs.Height())
